@@ -296,3 +296,22 @@ CH.split_array.harness = Harness(
     variants=[("py_func", _sa_native(lambda *a: _pyf(_split_array())(*a)))],
     gen=_sa_gen, scope="all sorted interval arrays of <=4 rows on grid 0..5 x t in 0..7 x allow_early_split + random",
     nontrivial=lambda i: len(i["data"]) >= 1)
+
+
+# ---- _get_empty_container_ids ------------------------------------------------------------------
+def _gec_gen(rng, tier):
+    for n in range(0, 6):
+        for m in range(0, n + 1):
+            for full in itertools.combinations(range(n), m):
+                yield dict(n_containers=n, full_container_ids=np.array(full, dtype=np.int64))
+    for _ in range(300 if tier == "quick" else 20000):
+        n = rng.randint(0, 30)
+        full = sorted(rng.sample(range(n), rng.randint(0, n))) if n else []
+        yield dict(n_containers=n, full_container_ids=np.array(full, dtype=np.int64))
+
+
+G.get_empty_container_ids.harness = Harness(
+    native=lambda i: _g()._get_empty_container_ids(i["n_containers"], i["full_container_ids"]),
+    variants=[("py_func", lambda i: _pyf(_g()._get_empty_container_ids)(i["n_containers"], i["full_container_ids"]))],
+    gen=_gec_gen, scope="every subset of full ids of 0..5 containers (exhaustive) + random subsets of up to 30 containers",
+    nontrivial=lambda i: i["n_containers"] > 0)
